@@ -18,7 +18,7 @@ LEVEL_NOTE = ("Trusted: Lean kernel + 3 standard axioms; hand-written model (Lex
               "total model functions); correspondence run incl. size-scaled inputs; CPython re semantics. Not modelled: "
               "recursion limit and memory of the interpreter, logging.")
 TECHNIQUE = "Lean 4 proof: unreachability of error states by an automaton invariant; differential correspondence incl. size-scaled inputs"
-RULE = ("corpus; every sequence of <= 3 (thorough 4) whole blocks over a pool of 11 whose keys collide exactly or only "
+RULE = ("corpus (incl. @strings defined by themselves, by each other, in chains of 3000, keys differing in case, empty keys - what the default stack runs on); every sequence of <= 3 (thorough 4) whole blocks over a pool of 11 whose keys collide exactly or only "
         "up to letter case (@string / entry / duplicate-field / comment / preamble / free text, with references in both "
         "spellings); every string of <= k tokens over { } \" , = NL \\ @a a SP behind 6 block prefixes (k=4 quick, 5 thorough); "
         "arbitrary Unicode garbage incl. lone surrogates (python-only stream: must not raise); size-scaled families "
